@@ -24,7 +24,7 @@ PROPS = [
     (r'type_definition', ['C03', 'C02', 'C07', 'C09']),
     (r'enum_definition', ['C08', 'C09']),
     (r'semantic::function', ['C05', 'C16', 'C09']),
-    (r'semantic_state|module|type_registry', ['C10', 'C11', 'C09']),
+    (r'semantic_state|module|type_registry', ['C10', 'C11', 'C09', 'C19', 'C13', 'C15']),
 ]
 STATE_QUERY = re.compile(r'(TypeRegistry::(get|get_mut|contains|resolved|unresolved)|(?:HashMap|BTreeMap)(?:::)?<.*>::(get|get_mut|contains_key|entry)|'
                          r'(?:HashSet|BTreeSet)(?:::)?<.*>::(contains|get|insert)|Vec::<.*>::contains|slice::<impl \[T\]>::contains|'
